@@ -7,16 +7,20 @@ CONSTANTS
   IdxKeyMode = "abs"
   ImgKeepMode = "none"
   LookupsCap = 0
+  FailKeep = FALSE
+  RegionMemo = FALSE
   MaxDepth = 4
   MaxDepthDmg = 3
   MaxDepthCollide = 3
-  Families = {"intact", "dmg", "collide", "img", "fill", "scopes"}
+  Families = {"intact", "dmg", "collide", "img", "fill", "scopes", "var"}
   ImgCounts = {2, 3}
   ImgFilterMode = "own"
   MaxImgFilters = 3
   FillKeys = 150
   FillLangs = 100
   FillLookups = 150
+  MaxDepthVar = 2
+  VarTuples = {"t0", "tA", "tB", "tC"}
   MaxDepthScopes = 2
 SPECIFICATION Spec
 VIEW View
